@@ -49,7 +49,11 @@ impl LookupFunction<&StringName, Function> for Context {
     fn function(&self, function: &StringName, pos: Position) -> TypeResult<Function> {
         let generics = HashMap::new();
 
-        if let Some(generic_fun) = self.functions.iter().find(|c| &c.name == function) {
+        // if there are multiple functions with the same name, first defined takes precedence
+        let same_name = self.functions.iter().filter(|c| &c.name == function);
+        let first = same_name.min_by_key(|c| (c.pos.start.line, c.pos.start.pos, c.arguments.len()));
+
+        if let Some(generic_fun) = first {
             Function::try_from((generic_fun, &generics, pos))
         } else if let Some(generic_class) = self.classes.iter().find(|c| &c.name == function) {
             let class = Class::try_from((generic_class, &generics, pos))?;
